@@ -204,6 +204,50 @@ def check(P, R):
              f'containing "\\\\" comes back changed',
              why='names containing backslashes, semicolons, equals signs round-trip exactly', key_extra='unquote')
 
+    # per-part state is per FieldStorage instance: a container that exists once on the class and is written through `self` mixes the parts
+    from .. import effects as E_
+    for cfq_ in (f'{MP}:FieldStorage', f'{MP}:Header'):
+        k_ = P.classes.get(cfq_)
+        if k_ is None:
+            continue
+        for an_, av_ in k_.attrs.items():
+            if not isinstance(av_, (ast.Dict, ast.List, ast.Set)) and not (isinstance(av_, ast.Call) and dotted(av_.func) in ('dict', 'list', 'set', 'defaultdict')):
+                continue
+            muts_ = []
+            for fm_ in k_.methods.values():
+                for n_ in walk_shallow(fm_.node):
+                    if isinstance(n_, ast.Call) and isinstance(n_.func, ast.Attribute) and n_.func.attr in E_.MUTATORS and dotted(n_.func.value) == f'self.{an_}':
+                        muts_.append((fm_, n_))
+                    if isinstance(n_, ast.Assign) and any(isinstance(t_, ast.Subscript) and dotted(t_.value) == f'self.{an_}' for t_ in n_.targets):
+                        muts_.append((fm_, n_))
+            per_instance = E_._assigned_on_instances(P, k_, an_)
+            for (fm_, n_) in muts_:
+                R.ob('C07.d', fm_, n_, per_instance, text=f'{short(n_)}: `{an_}` belongs to the part', detail='' if per_instance else
+                     f'`{an_}` is a container created once on the class {k_.name} and filled through self: every part of every request writes into the same object, '
+                     f'so an upload reports the Content-Type / Content-Disposition of whichever part was read last',
+                     why='uploads come back with their own filename and content type; no byte of one part appears in another', key_extra=f'shared:{an_}')
+    # the boundary handed to the scanner is the parameter as sent: legal boundary characters (RFC 2046: digits, letters and '()+_,-./:=? ) are not stripped
+    fb_ = P.func(f'{BM}:BodyMixin._body')
+    for c_ in [x for x in walk_shallow(fb_.node) if isinstance(x, ast.Call) and dotted(x.func) == 'MultipartMarkup' and x.args]:
+        a0_ = T.expand(fb_, c_.args[0], fb_.cfg.node_of_stmt(c_)[0])
+        okb_, detb_ = True, ''
+        cur_ = a0_
+        while isinstance(cur_, ast.Call) and isinstance(cur_.func, ast.Attribute) and cur_.func.attr != 'group':
+            m_ = cur_.func.attr
+            if m_ in ('strip', 'lstrip', 'rstrip') and len(cur_.args) == 1 and isinstance(const(cur_.args[0]), str):
+                legal_ = set("0123456789abcdefghijklmnopqrstuvwxyzABCDEFGHIJKLMNOPQRSTUVWXYZ'()+_,-./:=?")
+                hit_ = sorted(set(const(cur_.args[0])) & legal_)
+                if hit_:
+                    okb_, detb_ = False, (f'`{short(cur_)}` removes {hit_} from the ends of the boundary although they are legal boundary characters: the delimiters of '
+                                          f'such a body are no longer found (empty form, or InvalidBoundaryError under chunked framing)')
+            elif m_ in ('strip', 'lstrip', 'rstrip') and not cur_.args:
+                pass
+            else:
+                okb_, detb_ = False, f'the boundary parameter is rewritten by `.{m_}(...)` before the scanner gets it'
+            cur_ = cur_.func.value
+        R.ob('C07.d', fb_, c_, okb_, text='the scanner is given the boundary parameter unaltered', detail=detb_,
+             why='the form round-trips for all legal boundary strings', key_extra='boundary-arg')
+
     # ---- c
     po = P.func(f'{BM}:BodyMixin.POST')
     g, rd = po.cfg, po.rd
